@@ -603,10 +603,78 @@ func (s Schema) Reductions() []Schema {
 		}
 	}
 	for i, o := range s.Objs {
-		for _, r := range o.T.Reductions() {
+		reds := o.T.Reductions()
+		reds = append(reds, leafResets(o.T)...)
+		for _, r := range reds {
 			objs := append([]Obj{}, s.Objs...)
 			objs[i].T = r
-			out = append(out, Schema{Objs: objs})
+			out = append(out, Schema{Objs: objs}.canonical())
+		}
+	}
+	return out
+}
+
+// canonical renames the only field of a single-field root struct to "f" (the
+// name the enumeration uses), so that dropping a field of a two-field schema
+// lands on an enumerated schema.
+func (s Schema) canonical() Schema {
+	if len(s.Objs) == 0 {
+		return s
+	}
+	// drop the objects nothing refers to any more (transitively)
+	for changed := true; changed; {
+		changed = false
+		used := map[string]bool{}
+		for _, o := range s.Objs {
+			walk(o.T, func(t Term) {
+				if t.K == "ref" || t.K == "constref" {
+					used[refName(t.A)] = true
+				}
+			})
+		}
+		for i, o := range s.Objs {
+			if i > 0 && !used[o.Name] {
+				s = Schema{Objs: append(append([]Obj{}, s.Objs[:i]...), s.Objs[i+1:]...)}
+				changed = true
+				break
+			}
+		}
+	}
+	t := s.Objs[0].T
+	if t.K == "struct" && len(t.Fields) == 1 && t.Fields[0].Name != "f" {
+		objs := append([]Obj{}, s.Objs...)
+		t.Fields = []irgen.Field{{Name: "f", Required: t.Fields[0].Required}}
+		objs[0].T = t
+		return Schema{Objs: objs}
+	}
+	return s
+}
+
+// leafResets replaces one leaf of t (constant, enum, reference, sized or
+// constrained scalar) by the base leaf `string`, and drops a default or a
+// nullable flag on it: the attribute resets of DESIGN §5.1.
+func leafResets(t Term) []Term {
+	var out []Term
+	if len(t.Sub) == 0 {
+		if !(t.K == "scalar" && t.A == "string" && !t.Constr && !t.Nullable && t.Default == "") && t.A != "null" {
+			out = append(out, irgen.S("string"))
+			if t.Nullable || t.Default != "" {
+				c := t
+				c.Nullable, c.Default = false, ""
+				out = append(out, c)
+			}
+		}
+		return out
+	}
+	for i, sub := range t.Sub {
+		if t.K == "map" && i == 0 {
+			continue
+		}
+		for _, r := range leafResets(sub) {
+			c := t
+			c.Sub = append([]Term{}, t.Sub...)
+			c.Sub[i] = r
+			out = append(out, c)
 		}
 	}
 	return out
